@@ -88,13 +88,13 @@ PROPS = {
         explanation=("Verified by Verus for every expression tree / every input: the analysis (Analyzer::visit, analyze) has no arithmetic overflow (Verus checks every + - *; the group counter is bounded by the tree's group count) and terminates; "
                      "whatever the analysis does not label hard is in the syntactic class `easy` (lemma_easy) and Expr::to_str on an easy tree never reaches its panic!, terminates, and push_usize never overflows its u8 digit arithmetic; "
                      "codepoint_len (the parser's stepping function) returns the encoded width of every leading byte."),
-        residual=("Of the parser, is_digit, is_hex_digit, parse_decimal, Parser::{flag, update_flag, is_repeatable, optional_whitespace, check_for_close_paren, parse_repeat} and the top of the recursive descent "
-                  "(Expr::parse_tree, Parser::{new, parse, parse_re, parse_branch, parse_piece, parse_atom}) are under contract: no panic, positions inside the pattern on character boundaries and never moving backwards, "
-                  "error positions <= length, both loops and the skipper terminate, the tree is well-shaped. The three sub-parsers parse_atom hands over to (parse_group with parse_flags / parse_conditional / parse_named_backref / parse_id, "
-                  "parse_escape, parse_class) and regex-automata's builder are NOT decided by proof: outside Verus' dialect, assumed with that same contract (T-parse-below), exercised only by the bounded family parse. "
-                  "The code emitter (U-COMPILE / U-EMITWF: no overflow / bounds / panic, push_literal only on literals, build never on an empty builder) and the construction glue "
+        residual=("Of the parser, the byte-level helpers (is_digit, is_hex_digit, parse_decimal, optional_whitespace, check_for_close_paren, parse_repeat, flag, update_flag, is_repeatable) and the recursive descent itself "
+                  "(Expr::parse_tree, Parser::{new, parse, parse_re, parse_branch, parse_piece, parse_atom, parse_group, parse_flags, parse_conditional}) are under contract: no panic (indexing, slicing on character boundaries, "
+                  "curr_group += 1 cannot overflow), positions inside the pattern and never moving backwards, error positions <= length, the recursion terminates (decreases MAX_RECURSION - depth, rank) and so does every loop, the tree is well-shaped. "
+                  "parse_escape, parse_class, the named / numbered reference parsers, parse_id and regex-automata's builder are NOT decided by proof: outside Verus' dialect, assumed with the common sub-parser contract (T-parse-below), "
+                  "exercised only by the bounded family parse. The code emitter (U-COMPILE / U-EMITWF: no overflow / bounds / panic, push_literal only on literals, build never on an empty builder) and the construction glue "
                   "(U-NEW: Regex::new_options composes parse -> wrap -> analyze -> compile / wrap, lemma_info_ok_cinfo, lemma_info_ok_gt) are decided by proof."),
-        assumptions=[T_VSTD, T_ARITH, T_EXTRACT, "T-parse-below: parse_group / parse_escape / parse_class return positions in bounds on boundaries, well-shaped trees, error positions inside the pattern; T-parser-shape: < 2^61 groups", "T-position / T-startswith / T-fromstr / T-stringfrom shims in U-PARSEFN",
+        assumptions=[T_VSTD, T_ARITH, T_EXTRACT, "T-parse-below: parse_escape / parse_class / the reference parsers / parse_id return positions in bounds on boundaries, well-shaped trees, error positions inside the pattern, the group counter behind the position; T-parser-shape: < 2^61 groups", "T-position / T-startswith / T-fromstr / T-stringfrom shims in U-PARSEFN",
                      "termination of the recursive code emitter is not proved (exec_allows_no_decreases_clause)"],
         bounded_families=['analyze', 'parse'],
     ),
